@@ -548,7 +548,9 @@ func replayU(f []string) *usess {
 // math.MaxInt, where head+n can leave the int range (F11).
 func genU(o *tr.Opts, w *tr.W, r *tr.Rand) {
 	caps := []string{"z", "n", "s0", "s1", "s2", "s3", "s5", "s8"}
-	huge := []int{1 << 40, 1<<62 - 1, 1 << 62, 1<<62 + 1, 1<<63 - 1 - 1000, math.MaxInt - 7, math.MaxInt - 2, math.MaxInt - 1, math.MaxInt}
+	within := []int{1 << 40, 1<<62 - 1, 1 << 62}
+	above := []int{1<<62 + 1, 1<<63 - 1 - 1000, math.MaxInt - 7, math.MaxInt - 2, math.MaxInt - 1, math.MaxInt}
+	panics := 0
 	run := func(in string, nops int, tag string) {
 		s := newUSess(in)
 		for j := 0; j < nops && !s.dead; j++ {
@@ -568,14 +570,27 @@ func genU(o *tr.Opts, w *tr.W, r *tr.Rand) {
 				s.do('k', tr.Pick(r, []int{math.MinInt, math.MinInt + n, -n - 1, -n, -1, 0, n - 1, n, math.MaxInt, math.MaxInt - n}))
 			}
 		}
+		if s.tags["u-panic"] {
+			panics++
+		}
 		s.emit(w, tag)
 	}
 	for i := 0; i < o.Scale(300, 6000); i++ {
 		run(tr.Pick(r, caps), r.Range(3, 40), "u-small")
 	}
-	for _, k := range huge {
+	for _, k := range within {
 		for i := 0; i < o.Scale(12, 200); i++ {
 			run("s"+strconv.Itoa(k), r.Range(2, 14), "u-huge")
+		}
+	}
+	// above the bound the histories that reach head+n >= 2^63 end in the known finding F11; their
+	// number is kept small and independent of the tier (the driver prints the first 20 failures of a
+	// trace, and a new failure must never be crowded out by known ones): at most 8 here + 7 below
+	for i := 0; i < 12 && panics < 8; i++ {
+		for _, k := range above {
+			if panics < 8 {
+				run("s"+strconv.Itoa(k), r.Range(2, 14), "u-huge")
+			}
 		}
 	}
 	// the F11 shape at every distance m below math.MaxInt: Push (head = len-1), then Adds until
@@ -587,6 +602,17 @@ func genU(o *tr.Opts, w *tr.W, r *tr.Rand) {
 			s.do('a', 0)
 		}
 		s.emit(w, "u-f11-shape")
+	}
+	// the same overflow met by Peek/PopLast first: m+2 Adds from head 0, then Push wraps head to
+	// len-1, so head+n > 2^63 and the observations after the Push (Peek) fail
+	for m := 0; m <= 2; m++ {
+		s := newUSess("s" + strconv.Itoa(math.MaxInt-m))
+		for i := 0; i < m+2; i++ {
+			s.do('a', 0)
+		}
+		s.do('u', 0)
+		s.do('l', 0)
+		s.emit(w, "u-f11-peek-poplast-shape")
 	}
 }
 
